@@ -96,8 +96,10 @@ def cases(ctx):
             carried[r] = rng.randrange(nq)
             seed.append(["set", [["Q", r], carried[r]]])
         prog = []
-        for r in sorted(carried):        # each carried register is read before the first two-qubit gate
-            prog.append([rng.choice(["h", "s", "x", "t"]), [["Q", r]]])
+        if rng.random() < 0.5:
+            for r in sorted(carried):    # each carried register is read before the first two-qubit gate ...
+                prog.append([rng.choice(["h", "s", "x", "t"]), [["Q", r]]])
+        # ... or only below it (and never written in this subroutine): it is named in the subroutine, so it is not free to borrow
         for _j in range(rng.choice([1, 2, 3])):
             a, b2 = rng.sample(range(nq), 2)
             prog += [["set", [["Q", 0], a]], ["set", [["Q", 1], b2]], [rng.choice(["cnot", "cphase"]), [["Q", 0], ["Q", 1]]]]
@@ -153,6 +155,25 @@ def cases(ctx):
             prog = [["set", [["Q", 0], a]], ["set", [["Q", 1], b2]], ["set", [["R", 1], rng.choice([0, 1])]], ["bez", [["R", 1], 5]],
                     gate_on_q0(), gate_on_q0(), ["h", [["Q", 1]]]]
         yield {"kind": "direct", "nq": nq, "seed_prog": seed, "prog": prog, "debug": rng.random() < 0.3, "load": False, "seam": True,
+               "loaded_two_qubit": False, "script": [rng.randrange(2) for _ in range(8)]}
+    for _ in range(ctx.n(20, 1500)):
+        # a program that names all sixteen Q registers and has a carbon-carbon gate inside a loop: nothing is left to borrow for the
+        # electron - the transpiler may refuse, it may not quietly take a register that is read again after the back-edge
+        nq = rng.choice([3, 4])
+        seed = []
+        for v in range(nq):
+            seed += [["set", [["Q", 0], v]], ["qalloc", [["Q", 0]]], ["init", [["Q", 0]]], ["set", [["Q", 0], v]], [rng.choice(["h", "k", "x"]), [["Q", 0]]]]
+        seed += [["set", [["R", 0], 0]], ["set", [["C", 0], 2]], ["set", [["C", 10], 1]]]
+        for r in range(2, 16):
+            seed.append(["set", [["Q", r], rng.randrange(nq)]])
+        a, b2 = rng.sample(range(1, nq), 2)
+        order = list(range(2, 16))
+        rng.shuffle(order)
+        prog = [[rng.choice(["h", "x", "s"]), [["Q", r]]] for r in order[:rng.choice([14, 14, 13])]]     # loop body starts by reading them
+        prog += [["set", [["Q", 0], a]], ["set", [["Q", 1], b2]], [rng.choice(["cnot", "cphase"]), [["Q", 0], ["Q", 1]]]]
+        prog += [[rng.choice(["h", "z"]), [["Q", r]]] for r in order[13:]]
+        prog += [["add", [["R", 0], ["R", 0], ["C", 10]]], ["blt", [["R", 0], ["C", 0], 0]]]
+        yield {"kind": "direct", "nq": nq, "seed_prog": seed, "prog": prog, "debug": False, "load": False, "may_refuse": True,
                "loaded_two_qubit": False, "script": [rng.randrange(2) for _ in range(8)]}
     for _ in range(ctx.n(30, 2000)):
         # the operand register of a gate inside a loop is `set` again BELOW the gate: in the second iteration it points at
@@ -369,6 +390,9 @@ def _direct(ctx, case):
     try:
         sub_n, merr, stats = transpile_and_monitor(sub_n, case["debug"])
     except Exception as e:
+        if case.get("may_refuse") and isinstance(e, RuntimeError) and "free register" in str(e):
+            ctx.count("all_registers_named_refused")      # no register left to borrow: refusing is the honest answer
+            return ctx.case(case, False)
         _judge(ctx, case, f"transpiler raised {type(e).__name__}: {str(e)[:160]}", key)
         return ctx.case(case, False)
     if merr:
